@@ -591,6 +591,39 @@ def run(chk):
             chk.fail("reuse-differs:ChainControl", f"a ChainControl used in a second PT-TEBD computation: the result differs from the first one / from the one with a freshly "
                      f"built equal object by {max(np.abs(first - fresh).max(), np.abs(second - fresh).max()):.2e}", info)
 
+    # ---- (b4c) the same question tied to the model (Model/Holder.v q_pure / ask): one-dimensional sites, so that an operation is an
+    # integer and the product of the stored operations is read off exactly; three questions in a row to ChainControl and Control ----
+    for i in range(12 if thorough else 6):
+        ks = [rng.randint(2, 7) for _ in range(rng.randint(1, 4))]
+        which = ("ChainControl", "Control-step", "Control-time")[i % 3]
+        info = {"family": "stored-product:" + which, "ops": ks}
+        chk.search_cases += 1
+        chk.count("stored_product")
+        chk.case(info, ("stored-product", which, tuple(ks)))
+        try:
+            if which == "ChainControl":
+                obj = oqupy.ChainControl([1, 1])
+                for k_ in ks:
+                    obj.add_single_site_control(np.array([[k_]], dtype=complex), 0, 1)
+
+                def q_():
+                    g_ = obj.get_single_site_controls(1, False)
+                    return int(round(g_[0][0, 0].real))
+            else:
+                obj = oqupy.Control(1)
+                for j_, k_ in enumerate(ks):
+                    obj.add_single(1 if which == "Control-step" else 0.1, np.array([[k_]], dtype=complex))
+
+                def q_():
+                    return int(round(quiet(obj.get_controls, 1, dt=0.1, start_time=0.0)[0][0, 0].real))
+            got = [q_(), q_(), q_()]
+        except Exception as ex:
+            chk.fail("reuse-raises", f"{which}: asked three times for the product of the stored operations {ks}: raises {ex!r}", info)
+            continue
+        exprs.append(f"let r := ask nat (q_pure nat Nat.mul) 3 {coq_list([str(k_) for k_ in ks])} in map (fun o => match o with Some v => v | None => 0 end) (fst r)")
+        expected.append(got)
+        meta.append(info)
+
     # ---- (b4') a SystemChain extended after use through EACH of its six add_* methods, one at a time (a term added by one method
     # must not depend on another method being called as well) ----------------------------------------------------------------
     Lsite = -1j * (np.kron(O, np.eye(2)) - np.kron(np.eye(2), O.T))
@@ -900,6 +933,11 @@ def run(chk):
         got = ints(v)
         if got != exp:
             chk.disagree("cache/alias sequence", {"meta": m, "impl": exp, "model": got})
+            if m["family"].startswith("stored-product"):
+                chk.fail("reuse-differs:" + m["family"].split(":")[1],
+                         f"{m['family']}: three questions in a row for the product of the stored operations {m['ops']} are answered {exp}; "
+                         f"the model (q_pure: the object is left as it was) answers {got}", m)
+                continue
             chk.fail("stale-or-aliased:" + m["family"],
                      f"{m['family']}: after the sequence {m['ops']} the answers come from parameter versions {exp}, "
                      f"the current parameters are {got} (0 = no call)", m)
